@@ -212,7 +212,7 @@ func (fr *frame) block(b *ssa.BasicBlock, st *state) {
 		case *ssa.RunDefers:
 			for i := len(fr.deferred) - 1; i >= 0; i-- {
 				d := fr.deferred[i]
-				if d.Block() != fr.fn.Blocks[0] {
+				if !d.Block().Dominates(b) {
 					c.unsup("conditional defer")
 				}
 				fr.doCall(b, st, d, d.Common(), nil)
@@ -471,6 +471,13 @@ func (fr *frame) doUnOp(b *ssa.BasicBlock, st *state, x *ssa.UnOp) {
 	c := fr.vc.c
 	switch x.Op {
 	case token.MUL:
+		if g, ok := x.X.(*ssa.Global); ok {
+			if cv, isConst := fr.vc.w.constGlobals[g]; isConst {
+				fr.vals[x] = fr.constTerm(cv)
+				fr.vc.assumed["the package-level variable "+g.String()+" is never written after its constant initialisation (module-wide scan)"] = true
+				return
+			}
+		}
 		if key, path, ok := fr.regAccess(x.X); ok {
 			fr.define(x, fr.regLoad(st, key, path))
 			return
@@ -688,7 +695,9 @@ func (fr *frame) doConvert(b *ssa.BasicBlock, st *state, x *ssa.Convert) {
 			_ = bt
 		}
 	case from == "Int" && to == "String":
-		fr.define(x, fmt.Sprintf("(rune2str %s)", fr.val(x.X)))
+		// string(rune): the one-character string of that code point (runes obtained from the text are valid code points)
+		fr.define(x, fmt.Sprintf("(str.from_code %s)", fr.val(x.X)))
+		c.note("string(rune) is the one-character string of the code point (invalid runes, which Go maps to U+FFFD, are not distinguished)")
 	case from == "Int" && to == "Real":
 		fr.define(x, fmt.Sprintf("(to_real %s)", fr.val(x.X)))
 	default:
